@@ -196,6 +196,21 @@ def block_general(st, rest, k):
         body, kk = B(st.body, DONE), B(rest, k)
         if body.trivial():
             return kk
+        if isinstance(st, ast.While) and ast.unparse(st.test) == "True":
+            # `while True:` is left by `break` only.  SkelL's `loop` also allows leaving at a loop head (exhaustion); so that a
+            # monitor can tell the two apart, every `break` of THIS loop is preceded by the action "brk:while-True" and the code
+            # after the loop by "after:while-True" (seen without the former = a path Python cannot take)
+            def mark(p):
+                if p.kind == "brk":
+                    return P("act", "brk:while-True", P("brk"))
+                if p.kind == "act":
+                    return P("act", p.a[0], mark(p.a[1]))
+                if p.kind == "ite":
+                    return P("ite", p.a[0], mark(p.a[1]), mark(p.a[2]), mark(p.a[3]))
+                if p.kind == "loop":
+                    return P("loop", p.a[0], mark(p.a[1]))       # a nested loop's own breaks stay unmarked
+                return p
+            return P("loop", mark(body), P("act", "after:while-True", kk))
         return P("loop", body, kk)
     if isinstance(st, ast.Try):
         if st.orelse or st.finalbody:
@@ -241,6 +256,34 @@ def collect_ctrl():
         except Exception as exc:
             out.append((name, None, repr(exc)))
     return out
+
+
+def collect_solve_main():
+    """the WHOLE body of solve_main as a SkelL.Prog (the main loop is a `loop`, its `break` leads to the final statements)"""
+    tree = ast.parse(open(os.path.join(core.REPO, "dfols", "solver.py")).read())
+    sm = [n for n in tree.body if isinstance(n, ast.FunctionDef) and n.name == "solve_main"][0]
+    return block(list(sm.body), P("act", "ret:None", P("ret")), True)
+
+
+def regenerate_solve_main(ctx=None):
+    path = os.path.join(core.LEAN_DIR, "DfolsVerif", "Gen", "SolveMainSkel.lean")
+    info = {}
+    try:
+        prog = collect_solve_main()
+        L = ["/-- the whole body of solve_main (prelude, main loop, final statements) -/", "def solveMainBody : SkelL.Prog :=\n %s\n" % prog.lean()]
+        info = {"nodes": prog.size()}
+    except Exception as exc:
+        if ctx is not None:
+            ctx.broke("gen:solve-main-skeleton", repr(exc))
+        L = ["-- TRANSLATION FAILED: %s" % repr(exc).replace("\n", " ")]
+    content = "\n".join(["/- GENERATED by harness/gen_skeleton.py from /repo's solver.py on every run — do not edit. -/",
+                         "import DfolsVerif.Kernels.SkeletonL", "namespace Dfols.Gen", ""] + L + ["end Dfols.Gen", ""])
+    old = open(path).read() if os.path.exists(path) else None
+    if old != content:
+        open(path, "w").write(content)
+    if ctx is not None:
+        ctx.cov["solve_main_skeleton"] = info
+    return info
 
 
 def regenerate_ctrl(ctx=None):
@@ -316,3 +359,4 @@ if __name__ == "__main__":
     print(prog.size(), after)
     print(regenerate())
     print(regenerate_ctrl())
+    print(regenerate_solve_main())
